@@ -45,3 +45,4 @@ Lemma lpop_nil {A} : @lpop A [] = Err IndexError.
 Proof. reflexivity. Qed.
 Lemma llast_app {A} (l : list A) x : llast (l ++ [x]) = Some x.
 Proof. unfold llast. now rewrite rev_app_distr. Qed.
+Definition lget0 {A} (l : list A) : result A := match l with [] => Err IndexError | x :: _ => Ok x end.
